@@ -74,6 +74,20 @@ def gen(rng, tier):
             if st["hist"]: cmds.append("histmerge" + st["hist"][len("history"):])
         obs = [False] * (len(tree) + len(extra) + len(pre)) + [True] * (len(cmds) - len(tree) - len(extra) - len(pre))
         out.append(Scenario(cmds, obs, tags=(inj,)))
+    # econf_readConfig WITHOUT a root prefix: the vendor directory is <usr_subdir>[/<project>] as given (here below the
+    # scratch root), /run and /etc are the real ones (where a "verif-absent-..." name exists nowhere); with and without a
+    # handle, with and without a project
+    for _ in range(30 if tier == "quick" else 600):
+        nm = b"verif-absent-%d" % rng.randrange(10**6)
+        withproj = rng.random() < 0.5
+        vdir = b"/vendor/" + nm if withproj else b"/vendor"
+        cname = b"app" if withproj else nm
+        cmds = [trees.fsdir(vdir), trees.fsfile(vdir + b"/" + cname + b".conf", b"k=vendor\n[s]\nj=1\n"), trees.fsdir(vdir + b"/" + cname + b".conf.d"),
+                trees.fsfile(vdir + b"/" + cname + b".conf.d/10-x.conf", rng.choice([b"k=dropin\n", b"[broken\n", b"k=dropin\n[s]\nj=2\n"]))]
+        k = len(cmds)
+        a = "%s %s %s x636f6e66 x3d x23" % (enc(nm) if withproj else "-", enc(b"@/vendor"), enc(cname))
+        cmds += ["readconfig 8 " + a, "dump 8", rng.choice(["newkf 9 61 35", "newini 9", "newempty 9"]), "readconfig 9 " + a, "dump 9", "getall 9"]
+        out.append(Scenario(cmds, [False] * k + [True] * 6, tags=("no-root-prefix",)))
     return out
 
 def nontrivial(s, mlines):
